@@ -49,9 +49,9 @@ ASSUME = [
     "the spelling of an explicit dtype (droplet, numpy dtype, plain descr dtype, array, record) and of the iterable "
     "(list, tuple, generator) and the Python/numpy type of a number are harness-side provenance of one model operation",
 ]
-RULE = ("operation sequences over the 41-operation language of Model.Heap (43 harness operations): exhaustive over an 18-letter alphabet "
+RULE = ("operation sequences over the 42-operation language of Model.Heap (44 harness operations): exhaustive over a 19-letter alphabet "
         "after a fixed 9-operation prefix (all sequences up to the tier's length), exhaustive over the extended "
-        "26-letter alphabet (constructor, clones, general slices) up to length 2 plus sampled length-3 sequences, the "
+        "33-letter alphabet (constructor, clones, general slices, self-extension) up to length 2 plus sampled length-3 sequences, the "
         "layout matrix (every ordered pair of 13 droplet layouts through every insertion path), the slice matrix (448 "
         "general slice keys on four-member collections of the three types), plus random "
         "sequences of length <= 40 over all five droplet classes; distinct = distinct operation sequences; "
@@ -184,18 +184,21 @@ class World:
         """Execute op on the implementation.  Returns (completed op, outcome) where outcome is 'Ok' or
         the error enum; oracle fields of the op (removed indices, merged value) are filled in."""
         self.sizes.append(self._target_size(op))
+        self.last_error = None
         try:
             op2 = self._do(op)
             return (op2 or op), "Ok"
         except _Completed as c:  # error raised by the implementation, op completed with oracle data
+            self.last_error = c.kind
             return c.op, c.kind
         except FloatingPointError:
             raise
         except Exception as ex:  # noqa
+            self.last_error = f"{type(ex).__name__}: {ex}"[:200]
             return op, ERR.get(type(ex).__name__, "EOther")
 
     _TARGET = {"E": ("Append", "Extend", "Get", "SetM", "Copy", "Slice", "SliceG", "Add", "RemoveSmall", "RemoveOverlap",
-                     "Link", "Merge", "EmClone", "EmCopyCtor"),
+                     "Link", "Merge", "EmClone", "EmCopyCtor", "ExtendSelf"),
                "T": ("TcAppend", "TcAppendBad", "TcSlice", "TcSliceG", "TcClear", "TcCopy", "TcClone"),
                "K": ("TrAppend", "TrAppendBad", "TrSlice", "TrSliceG", "TrGet", "TrCopy", "TrClone"),
                "L": ("TlRemoveShort",)}
@@ -247,6 +250,22 @@ class World:
                 e.extend(ds, **kw)
             finally:
                 _same_list(ds, keep)
+        elif n == "ExtendSelf":
+            _, c, how, cp, fc = op
+            e = E[c]
+            n0 = len(e)
+            arg = {"self": lambda: e, "alias": lambda: E[c], "list": lambda: list(e), "tuple": lambda: tuple(e),
+                   "slice": lambda: e[:]}[how]()
+            kw = {}
+            if not cp:
+                kw["copy"] = False
+            if fc:
+                kw["force_consistency"] = True
+            try:
+                _bounded_extend(e, arg, kw, 2 * n0 + 4)
+            except _Runaway:
+                list.__delitem__(e, slice(n0, None))     # harness clean-up: keep the world small
+                raise
         elif n == "Get":
             done = op[:3] + (_norm(op[2], len(E[op[1]])),)
             try:
@@ -535,6 +554,43 @@ class _Completed(Exception):
         self.op, self.kind = op, kind
 
 
+class _Runaway(Exception):
+    """Emulsion.extend did not stop after the number of appends a list would need (outcome EOther)"""
+
+
+def _bounded_extend(e, arg, kw, limit):
+    """e.extend(arg, **kw) with a deterministic bound on the number of Emulsion.append calls (extending an emulsion by
+    itself must not hang the check); SIGALRM is a backstop for implementations that bypass Emulsion.append"""
+    import signal
+    from droplets.emulsions import Emulsion
+    orig = Emulsion.append
+    calls = [0]
+
+    def counted(self, droplet, **kwargs):
+        calls[0] += 1
+        if calls[0] > limit:
+            raise _Runaway(f"more than {limit} appends")
+        return orig(self, droplet, **kwargs)
+
+    def on_alarm(signum, frame):
+        raise _Runaway("no result after 20 s")
+
+    old = None
+    try:
+        old = signal.signal(signal.SIGALRM, on_alarm)
+        signal.alarm(20)
+    except ValueError:      # not in the main thread: the append bound alone
+        old = None
+    Emulsion.append = counted
+    try:
+        e.extend(arg, **kw)
+    finally:
+        Emulsion.append = orig
+        if old is not None:
+            signal.alarm(0)
+            signal.signal(signal.SIGALRM, old)
+
+
 def _same_list(lst, keep):
     """the caller's list passed as an argument still holds the same objects in the same order"""
     if len(lst) != len(keep) or any(a is not b_ for a, b_ in zip(lst, keep)):
@@ -705,6 +761,9 @@ def oplit(op):
     if n == "EmCtor":
         dt = "None" if op[2] is None else f"(Some {op[2]})"
         return f"(OEmCtor {nl(op[1])} {dt} {b(op[5])} {b(op[6])})"
+    if n == "ExtendSelf":
+        # e.extend(e[:]) stores (copies of) the fresh droplets of the slice: no aliasing whatever the copy flag
+        return f"(OExtendSelf {op[1]} {b(op[3] or op[2] == 'slice')} {b(op[4])})"
     if n == "EmCopyCtor":
         # Emulsion(e) with the default flags: fresh copies of all members, dtype of the first one -- the abstract
         # effect of the full slice e[0:len(e)]
@@ -892,9 +951,10 @@ ALPHABET = [
     ("TcAppendBad", 0),
     ("TcCopy", 0),                          # copy constructor
     ("TlistAppend", 0, 9.0),                # the caller mutates its own list of times
+    ("ExtendSelf", 0, "self", True, False),  # e.extend(e): like a list, doubled by the droplets held before the call
 ]
 # 14 letters for the length-4 enumeration of the thorough tier
-ALPHABET4 = [a for a in ALPHABET if a[0] not in ("Add", "Copy", "RemoveSmall", "TcAppendBad")]
+ALPHABET4 = [a for a in ALPHABET if a[0] not in ("Add", "Copy", "RemoveSmall", "TcAppendBad", "ExtendSelf")]
 ALPHABET_EXTRA = [("TrSlice", 0, 0, 2), ("TrAppendBad", 0), ("Get", 0, 1), ("RemoveOverlap", 0, ()), ("TrCopy", 0),
                   ("TlistSet", 0, 0, 4.0), ("TrAppend", 0, 0, None)]
 
@@ -913,6 +973,8 @@ NEW_LETTERS = [
     ("TrSliceG", 0, None, None, -1),
     ("TrClone", 0, "deepcopy"),
     ("SetM", 0, -1, 2, 6.0),                                     # negative index
+    ("ExtendSelf", 0, "slice", False, True),                     # e.extend(e[:], copy=False, force_consistency=True)
+    ("ExtendSelf", 0, "alias", False, False),                    # the same objects a second time (documented aliasing)
 ]
 
 # one representative droplet per data layout: class family x dimension x number of modes
@@ -1014,14 +1076,15 @@ OPNAMES = ["New", "View", "SetH", "EmNew", "Append", "Extend", "Get", "SetM", "C
            "RemoveOverlap", "Link", "WriteA", "Merge", "TcNew", "TcAppend", "TcAppendBad", "TcSlice", "TcClear",
            "TrNew", "TrAppend", "TrAppendBad", "TrSlice", "TrGet", "TlNew", "TlRemoveShort",
            "TcCopy", "TcNewL", "TrCopy", "TrNewL", "TlistNew", "TlistAppend", "TlistSet",
-           "EmCtor", "EmClone", "SliceG", "TcSliceG", "TrSliceG", "TcClone", "TrClone", "EmCopyCtor"]
+           "EmCtor", "EmClone", "SliceG", "TcSliceG", "TrSliceG", "TcClone", "TrClone", "EmCopyCtor", "ExtendSelf"]
 WEIGHTS = {"New": 5, "View": 1, "SetH": 4, "EmNew": 2, "Append": 8, "Extend": 3, "Get": 2, "SetM": 4, "Copy": 3,
            "Slice": 3, "Add": 2, "RemoveSmall": 2, "RemoveOverlap": 2, "Link": 3, "WriteA": 3, "Merge": 3, "TcNew": 2,
            "TcAppend": 4, "TcAppendBad": 1, "TcSlice": 2, "TcClear": 1, "TrNew": 2, "TrAppend": 4, "TrAppendBad": 1,
            "TrSlice": 2, "TrGet": 1, "TlNew": 1, "TlRemoveShort": 1,
            "TcCopy": 3, "TcNewL": 3, "TrCopy": 3, "TrNewL": 3, "TlistNew": 2, "TlistAppend": 3, "TlistSet": 2,
            "EmCtor": 5, "EmClone": 3, "SliceG": 3, "TcSliceG": 2, "TrSliceG": 2, "TcClone": 2, "TrClone": 2,
-           "EmCopyCtor": 2}
+           "EmCopyCtor": 2, "ExtendSelf": 3}
+SELF_HOWS = ["self", "self", "alias", "list", "tuple", "slice"]
 DTKINDS = ["droplet", "dtype", "plain", "array", "record", "empty"]
 ITKINDS = ["list", "tuple", "gen"]
 HOWS = ["copy", "deepcopy", "pickle", "pickle2"]
@@ -1150,6 +1213,12 @@ def _random_op_once(rng, w, classes, default_only, names, idx, flat_index):
             if len(E) >= MAXTAB:
                 return None
             return ("EmCopyCtor", idx(E))
+        if n == "ExtendSelf":
+            c = idx(E)
+            if c < len(E) and 2 * len(E[c]) > MAXMEM:
+                return None
+            cp = True if default_only else rng.random() < 0.75
+            return ("ExtendSelf", c, rng.choice(SELF_HOWS), cp, rng.random() < 0.35)
         if n == "SliceG":
             if len(E) >= MAXTAB:
                 return None
@@ -1544,6 +1613,10 @@ class RefModel:
             vs = [H[i] for i in idx]
             E[c]
             for v in vs:                      # a rejected droplet stops the loop, earlier ones stay
+                self._append(c, v, fc)
+        elif n == "ExtendSelf":
+            _, c, how, cp, fc = op
+            for v in list(E[c][1]):           # like a list: the droplets held BEFORE the call; a rejection stops the loop
                 self._append(c, v, fc)
         elif n == "SetM":
             c, i, k, x = op[1:5]
@@ -1962,7 +2035,7 @@ def oracle_run(ops, rng=None, queries=True):
         else:
             exp = m.step(op2)
             if exp != oc:
-                return f"{where}: outcome {oc}, list model expects {exp}"
+                return f"{where}: outcome {oc}" + (f" ({w.last_error})" if w.last_error else "") + f", list model expects {exp}"
             mc = m.contents()
             for key in ("hnd", "ems", "tcs", "trs", "tls", "tvars"):
                 if mc[key] != cont[key]:
@@ -2057,35 +2130,14 @@ def ops_from_json(lst):
 
 
 # ---------------------------------------------------------------------------------------
-# suspected defects: inputs on which the UNCHANGED /repo does not behave like the list model.  They are run and
-# reported in the evidence notes but NOT judged (no violation) until the lead has decided; replays in the style of
-# corpus/defects.py (return None when the property holds, a description otherwise)
+# observations OUTSIDE the judged property: run on every check, named and counted in the evidence, never judged.
+# Reason (decision of the lead): the C20 text enumerates the operations of the property (append, extend, copy, slice,
+# add, filter by radius, remove overlaps, link data, merge members, clear); insert / += / item and slice assignment
+# are plain `list` behaviour that Emulsion inherits and that nothing in the library uses.
+# Replays in the style of corpus/defects.py (None when the list-model behaviour holds, a description otherwise).
+# (Self-extension, first reported here, was judged a genuine defect: F35, fixed by /repo 0a76226; it is now the
+# judged operation ExtendSelf of the correspondence and the oracle.)
 # ---------------------------------------------------------------------------------------
-def S1_self_extend():
-    """e.extend(e): for a list this doubles the list; Emulsion.extend iterates over `droplets` while appending to
-    self, so with droplets is self the loop never ends (memory grows until the process dies)"""
-    from droplets.droplets import SphericalDroplet
-    from droplets.emulsions import Emulsion
-
-    class Guarded(Emulsion):            # deterministic guard instead of a timeout
-        calls = 0
-
-        def append(self, droplet, **kw):
-            Guarded.calls += 1
-            if Guarded.calls > 50:
-                raise OverflowError
-            super().append(droplet, **kw)
-
-    e = Guarded([SphericalDroplet([0, 0], 1), SphericalDroplet([3, 0], 1)])
-    Guarded.calls = 0
-    try:
-        e.extend(e)
-    except OverflowError:
-        return f"e.extend(e) does not terminate (stopped by the guard after 50 appends, len(e) = {len(e)})"
-    if len(e) != 4:
-        return f"e.extend(e) left {len(e)} droplets, expected 4"
-
-
 def S2_inherited_list_mutators():
     """insert / += / item assignment / slice assignment are inherited from list: they store the caller's object
     (no copy although no copy=False was given) and bypass the dtype bookkeeping and force_consistency"""
@@ -2178,7 +2230,11 @@ def long_history_probe(n=1203):
     return None
 
 
-SUSPECTED = [("S1_self_extend", S1_self_extend), ("S2_inherited_list_mutators", S2_inherited_list_mutators)]
+OBSERVED_OUTSIDE_PROPERTY = [
+    ("S2_inherited_list_mutators", S2_inherited_list_mutators,
+     "insert / += / item and slice assignment are inherited list methods, not among the operations the property "
+     "enumerates, and unused by the library"),
+]
 
 
 # ---------------------------------------------------------------------------------------
@@ -2215,6 +2271,13 @@ CORPUS = [
      ("TrSliceG", 0, None, None, -1), ("TrClone", 0, "pickle"), ("TrAppend", 2, 0, None), ("TrClone", 1, "deepcopy"),
      ("RemoveSmall", 0, None), ("RemoveSmall", 0, -0.5), ("RemoveSmall", 0, ("f64", 1.0)), ("Copy", 0, ("i64", 1)),
      ("EmClone", 0, "pickle2"), ("Link", 3), ("EmClone", 3, "pickle"), ("WriteA", 0, 0, 2, 4.0)],
+    # F35: self-extension (fixed by commit 0a76226 in /repo): e.extend(e) in every spelling, then edits of both halves
+    [("New", VA), ("New", VB), ("EmNew",), ("ExtendSelf", 0, "self", True, False), ("Extend", 0, (0, 1), True, False),
+     ("ExtendSelf", 0, "self", True, False), ("SetM", 0, 0, 2, 5.0), ("SetM", 0, 3, 2, 6.0),
+     ("ExtendSelf", 0, "self", True, True), ("EmCopyCtor", 0), ("ExtendSelf", 1, "alias", True, False),
+     ("Slice", 0, 0, 1), ("ExtendSelf", 2, "list", True, False), ("ExtendSelf", 2, "tuple", True, True),
+     ("ExtendSelf", 2, "slice", True, False), ("SetM", 2, -1, 2, 9.0), ("TcNew", (2,), None),
+     ("ExtendSelf", 3, "self", True, False), ("Link", 3), ("ExtendSelf", 3, "self", True, False)],
 ]
 
 
@@ -2227,6 +2290,8 @@ def _is_default(op):
         return bool(op[3])
     if n == "EmCtor":
         return bool(op[5]) or not op[1]
+    if n == "ExtendSelf":
+        return bool(op[3]) or op[2] == "slice"
     return True
 
 
@@ -2282,6 +2347,8 @@ def _book(ctx, done, obs, kind):
             ctx.count("constructor_iterable", o[4])
             ctx.count("constructor_length", len(o[1]))
             ctx.count("insert_flags", f"EmCtor:copy={o[5]},force_consistency={o[6]}")
+        elif n == "ExtendSelf":
+            ctx.count("self_extension", f"{o[2]}:copy={o[3]},force_consistency={o[4]}:{oc}")
         elif n in ("EmClone", "TcClone", "TrClone"):
             ctx.count("clone_provenance", f"{n}:{o[2]}")
         elif n in ("SliceG", "TcSliceG", "TrSliceG"):
@@ -2511,14 +2578,17 @@ def check(ctx: vlib.Ctx) -> int:
         ctx.violations.append({"what": r, "input": {"probe": "long_history_probe", "appends": 1203}, "found": True,
                                "broken": ctx.broken[:3]})
     lap("oracle")
-    # ---- suspected defects: run, reported, not judged
-    for name, fn in SUSPECTED:
+    # ---- observations outside the judged property: run, named, counted, not judged
+    for name, fn, reason in OBSERVED_OUTSIDE_PROPERTY:
         try:
             res = fn()
         except Exception as ex:  # noqa
             res = f"replay raised {type(ex).__name__}: {ex}"
-        ctx.count("suspected_not_judged", f"{name}:{'fails' if res else 'holds'}")
-        ctx.notes.append(f"SUSPECTED (reported, not judged) {name}: " + (res or "holds on this tree"))
+        ctx.count("observed_outside_property_not_judged", f"{name}:{'differs_from_list_model' if res else 'holds'}")
+        ctx.notes.append(f"OBSERVED OUTSIDE THE PROPERTY (not judged: {reason}) {name}: " + (res or "holds on this tree"))
+    ctx.notes.append("self-extension with an iterator / generator over the emulsion itself is not an input: the list "
+                     "model itself diverges (list.extend(x for x in l) never ends in CPython); judged spellings: the "
+                     "emulsion itself, an alias, list(e), tuple(e), the slice e[:]")
     ctx.notes.append("deepcopy / pickle round trip of a DropletTrack is compared with the model's copy constructor "
                      "OTrCopy (same abstract effect); copy.copy of a time course or track (shallow by Python convention), "
                      "DropletTrackList clones, slice step 0 and list indices (TypeError / ValueError of the built-in "
